@@ -115,22 +115,73 @@ pub fn withheld(data: &[u8]) -> u64 {
     }
 }
 
+/// description of one mint of a fixture
+#[derive(Clone, Copy, Debug)]
+pub struct MintCfg {
+    pub key: Pubkey,
+    pub token2022: bool,
+    pub fee: Option<FeeCfg>,
+    pub decimals: u8,
+}
+impl MintCfg {
+    pub fn program(&self) -> Pubkey {
+        if self.token2022 || self.fee.is_some() {
+            anchor_spl::token_2022::ID
+        } else {
+            anchor_spl::token::ID
+        }
+    }
+    pub fn is22(&self) -> bool {
+        self.token2022 || self.fee.is_some()
+    }
+}
+
+pub fn trader_key() -> Pubkey {
+    k(0x51, 1)
+}
+/// the trader's token account for a mint
+pub fn trader_account(mint: &Pubkey) -> Pubkey {
+    let mut b = mint.to_bytes();
+    b[31] ^= 0x5a;
+    b[30] = 0x52;
+    Pubkey::new_from_array(b)
+}
+
+/// mints, the trader and the trader's token accounts
+pub fn add_token_side(bank: &mut Bank, mints: &[MintCfg], trader_funds: u64) {
+    let trader = trader_key();
+    bank.set(trader, system_id(), 1_000_000_000, vec![]);
+    for m in mints {
+        bank.set(m.key, m.program(), 1_000_000, mint_data(m.is22(), m.decimals, m.fee, bank.epoch));
+        bank.set(trader_account(&m.key), m.program(), 2_000_000, token_account_data(m.is22(), &m.key, &trader, trader_funds, m.fee.is_some()));
+    }
+    bank.set_program(anchor_spl::token::ID);
+    bank.set_program(anchor_spl::token_2022::ID);
+    bank.set_program(anchor_spl::memo::ID);
+}
+
 impl Fx {
     /// `fee_a` / `fee_b`: Some => that mint is a Token-2022 mint with a transfer fee
     pub fn from_world(w: &World, fee_a: Option<FeeCfg>, fee_b: Option<FeeCfg>, t22_a: bool, t22_b: bool, trader_funds: u64) -> Fx {
-        let mut bank = Bank::new(w.now as i64);
+        let ma = MintCfg { key: k(0x31, 1), token2022: t22_a, fee: fee_a, decimals: 6 };
+        let mb = MintCfg { key: k(0x32, 2), token2022: t22_b, fee: fee_b, decimals: 9 };
+        let mut fx = Fx::pool_only(w, &ma, &mb, 0, Bank::new(w.now as i64));
+        add_token_side(&mut fx.bank, &[ma, mb], trader_funds);
+        fx
+    }
+
+    /// the pool-side accounts (whirlpool PDA, tick arrays, oracle, vaults) added to `bank`
+    pub fn pool_only(w: &World, ma: &MintCfg, mb: &MintCfg, tag: u8, mut bank: Bank) -> Fx {
         let wp0 = w.wp();
         let ts = wp0.tick_spacing;
-        let config = k(0x21, 1);
-        let (mint_a, mint_b) = (k(0x31, 1), k(0x32, 2));
+        let config = k(0x21, 1 + tag);
+        let (mint_a, mint_b) = (ma.key, mb.key);
         let seed = if w.af.is_some() { ts.wrapping_add(1024).to_le_bytes() } else { ts.to_le_bytes() };
         let (pool, bump) = Pubkey::find_program_address(&[b"whirlpool", config.as_ref(), mint_a.as_ref(), mint_b.as_ref(), &seed], &::whirlpool::ID);
-        let (vault_a, vault_b) = (k(0x41, 1), k(0x42, 2));
-        let trader = k(0x51, 1);
-        let (trader_a, trader_b) = (k(0x52, 1), k(0x53, 2));
-        let (t22_a, t22_b) = (t22_a || fee_a.is_some(), t22_b || fee_b.is_some());
-        let prog_a = if t22_a { anchor_spl::token_2022::ID } else { anchor_spl::token::ID };
-        let prog_b = if t22_b { anchor_spl::token_2022::ID } else { anchor_spl::token::ID };
+        let (vault_a, vault_b) = (k(0x41 + 4 * tag, 1), k(0x42 + 4 * tag, 2));
+        let trader = trader_key();
+        let (trader_a, trader_b) = (trader_account(&mint_a), trader_account(&mint_b));
+        let (prog_a, prog_b) = (ma.program(), mb.program());
         // whirlpool
         let mut wp = wp0;
         wp.whirlpools_config = config;
@@ -168,18 +219,9 @@ impl Fx {
             data.extend_from_slice(bytemuck::bytes_of(&o));
             bank.set(oracle, ::whirlpool::ID, 10_000_000, data);
         }
-        // token side
-        bank.set(mint_a, prog_a, 1_000_000, mint_data(t22_a, 6, fee_a, bank.epoch));
-        bank.set(mint_b, prog_b, 1_000_000, mint_data(t22_b, 9, fee_b, bank.epoch));
         let cap = |x: u128| x.min(u64::MAX as u128 / 4) as u64;
-        bank.set(vault_a, prog_a, 2_000_000, token_account_data(t22_a, &mint_a, &pool, cap(w.vault_a), fee_a.is_some()));
-        bank.set(vault_b, prog_b, 2_000_000, token_account_data(t22_b, &mint_b, &pool, cap(w.vault_b), fee_b.is_some()));
-        bank.set(trader, system_id(), 1_000_000_000, vec![]);
-        bank.set(trader_a, prog_a, 2_000_000, token_account_data(t22_a, &mint_a, &trader, trader_funds, fee_a.is_some()));
-        bank.set(trader_b, prog_b, 2_000_000, token_account_data(t22_b, &mint_b, &trader, trader_funds, fee_b.is_some()));
-        bank.set_program(anchor_spl::token::ID);
-        bank.set_program(anchor_spl::token_2022::ID);
-        bank.set_program(anchor_spl::memo::ID);
+        bank.set(vault_a, prog_a, 2_000_000, token_account_data(ma.is22(), &mint_a, &pool, cap(w.vault_a), ma.fee.is_some()));
+        bank.set(vault_b, prog_b, 2_000_000, token_account_data(mb.is22(), &mint_b, &pool, cap(w.vault_b), mb.fee.is_some()));
         Fx { bank, pool, mint_a, mint_b, vault_a, vault_b, trader, trader_a, trader_b, prog_a, prog_b, oracle, ts }
     }
 
